@@ -888,7 +888,9 @@ class NumaNode(Node):
         else:
 
             # otherwise we fill the `numa_domains` map with virtual node instances,
-            # one per NUMA domain
+            # one per NUMA domain (don't share the class level default dict
+            # between node instances)
+            self.numa_domains = dict()
             for domain_id, domain_descr in numa_domain_map.items():
 
                 n = Node(from_dict)
